@@ -532,9 +532,6 @@ Section XDS.
   Qed.
 End XDS.
 
-Definition rad_xcheck_margin (G : cfg) : radii :=
-  let h := MatchingCost.offset (g_w G) in mkRad h (Z.max h (dspan G)) (Z.max h (dspan G)).
-
 Theorem xcheck_step_local : forall thr G, cfg_wf G ->
   local (fun F r c => px_ok G (f_at F r c)) (xcheck_step thr G) (rad_xcheck G) (rad_xcheck_margin G).
 Proof.
@@ -562,4 +559,49 @@ Proof.
   2:{ intros d Hd. unfold fld. rewrite Hrow by lia. reflexivity. }
   2:{ exact HokR. }
   rewrite E0. reflexivity.
+Qed.
+
+(* ------------------------------------------------------------------ pipelines *)
+
+Definition env_wf (V : env) : Prop := cfg_wf (e_cfg V) /\ 1 <= e_bwta V /\ 1 <= e_bmed V.
+Definition step_wf (s : step) : Prop := match s with SMedian w => 0 <= w | _ => True end.
+
+Lemma step_D_wf : forall G s, cfg_wf G -> step_wf s -> rad_wf (step_D G s) /\ rad_wf (step_M G s).
+Proof.
+  intros G s Hwf Hs. pose proof (h0 G Hwf) as Hh.
+  assert (0 <= dspan G) by (unfold dspan, dpos, dneg; lia).
+  destruct s; cbn [step_D step_M step_wf] in *; unfold rad_wf, rad_mc, rad0, rad_filter, rad_xcheck, rad_xcheck_margin;
+    cbn [rho lam mu]; lia.
+Qed.
+
+Lemma step_local : forall V s, env_wf V -> step_wf s ->
+  local (step_side (e_cfg V) s) (step_op V s) (step_D (e_cfg V) s) (step_M (e_cfg V) s).
+Proof.
+  intros V s (Hc & Hb1 & Hb2) Hs. destruct s; cbn [step_side step_op step_D step_M].
+  - apply mc_step_local; assumption.
+  - apply wta_step_local; assumption.
+  - apply refine_step_local.
+  - apply median_step_local; assumption.
+  - apply xcheck_step_local; assumption.
+Qed.
+
+Lemma pipe_chain : forall V steps, env_wf V -> Forall step_wf steps ->
+  chain (pipe_side V steps) (map (step_op V) steps) (fst (pipe_rad (e_cfg V) steps)) (snd (pipe_rad (e_cfg V) steps)).
+Proof.
+  intros V steps HV. induction 1 as [|s rest Hs Hrest IH].
+  - cbn. constructor.
+  - cbn [map pipe_side pipe_rad]. destruct (pipe_rad (e_cfg V) rest) as [Ds Ms] eqn:Er. cbn [fst snd] in *.
+    destruct (step_D_wf (e_cfg V) s (proj1 HV) Hs).
+    constructor; try assumption. apply step_local; assumption.
+Qed.
+
+Theorem pipe_local : forall V steps, env_wf V -> Forall step_wf steps ->
+  local (pipe_side V steps) (run_pipe (map (step_op V) steps))
+        (fst (pipe_rad (e_cfg V) steps)) (snd (pipe_rad (e_cfg V) steps)).
+Proof. intros. apply pipeline_local. apply pipe_chain; assumption. Qed.
+
+Lemma pipe_rad_forget : forall G steps, pipe_rad G steps = kpipe_rad G (map forget steps).
+Proof.
+  induction steps as [|s rest IH]; cbn [pipe_rad kpipe_rad map]; [reflexivity|].
+  rewrite IH. destruct (kpipe_rad G (map forget rest)). destruct s; reflexivity.
 Qed.
